@@ -391,6 +391,8 @@ end
 @[simp] theorem Call.toCrlf_lname (c : Call) : c.toCrlf.lname = c.lname := rfl
 @[simp] theorem Call.toCrlf_singles (c : Call) : c.toCrlf.singles = c.singles := by
   simp [Call.singles]
+@[simp] theorem Call.toCrlf_allTexts (c : Call) : c.toCrlf.allTexts = c.allTexts := by
+  simp [Call.allTexts]
 
 theorem Call.toCrlf_sim (c : Call) : Call.Sim c c.toCrlf :=
   ⟨rfl, by simp [Call.toCrlf, sargsToCrlf_toArgs]⟩
@@ -540,7 +542,7 @@ theorem Item.spec_crlf (cfg : Cfg) (htr : ProbeOk cfg.trigger) (ctx : ClsCtx) :
   | .cmd doc call, h => by
     simp only [Item.docsCanonical] at h
     have hd := docRel_of_canonical doc h
-    simp only [Item.toCrlf, Item.spec, Call.toCrlf_lname, Call.toCrlf_singles, Call.toCrlf_toCmd, isSome_map_toCrlf]
+    simp only [Item.toCrlf, Item.spec, Call.toCrlf_lname, Call.toCrlf_singles, Call.toCrlf_allTexts, Call.toCrlf_toCmd, isSome_map_toCrlf]
     generalize docTextOf (doc.map DocC.toCrlf) = t' at hd ⊢
     generalize docTextOf doc = t at hd ⊢
     repeat' first
